@@ -551,7 +551,7 @@ impl Family for Rows {
         if !o.res.is_ok() {
             return Err(Violation::new("result-not-ok", format!("run_on returned {}", o.res.short())));
         }
-        let d = decode_all(&o.sim.out, &conv, &s.last_seq, 2, false).map_err(|e| Violation::new("reply-decode", e))?;
+        let d = decode_all(delivered(&o), &conv, &s.last_seq, 2, false).map_err(|e| Violation::new("reply-decode", e))?;
         match &d.replies[0][..] {
             [Unit::ResultSet { rows, end: Ok(_), .. }] if rows.len() == r => {
                 for i in 0..r {
@@ -630,7 +630,7 @@ impl Family for RecoverText {
         }
         if o.calls.iter().any(|c| c.res.as_ref().err().map(|e| e != "first alternative refused").unwrap_or(false)) {
             st.bump("recovery_not_supported");
-            return match decode_all(&o.sim.out, &conv, &s.last_seq, 1, true) {
+            return match decode_all(delivered(&o), &conv, &s.last_seq, 1, true) {
                 Ok(_) => Ok(()),
                 Err(e) if e.contains("server output ends where") => Ok(()),
                 Err(e) => Err(Violation::new("refused-but-emitted", e)),
@@ -639,7 +639,7 @@ impl Family for RecoverText {
         if !o.res.is_ok() {
             return Err(Violation::new("result-not-ok", format!("run_on returned {}", o.res.short())));
         }
-        let dd = decode_all(&o.sim.out, &conv, &s.last_seq, 2, false).map_err(|e| Violation::new("row-undecodable", e))?;
+        let dd = decode_all(delivered(&o), &conv, &s.last_seq, 2, false).map_err(|e| Violation::new("row-undecodable", e))?;
         match &dd.replies[0][..] {
             [Unit::ResultSet { rows, .. }] if rows.len() == 1 + second_row as usize => {
                 let r = rows.last().unwrap();
